@@ -337,8 +337,9 @@ def run(ctx):
                 nm = e["m"].rsplit("/", 1)[-1]
                 e["m"] = int(nm[1:].split(".")[0]) if nm.startswith("m") and nm[1:].split(".")[0].isdigit() else 0
             evs.append(e)
-        if s["k"] == "members" and r.get("eff") != s["lim"]:
+        if s["k"] == "members" and w["configure"] and r.get("eff") != s["lim"]:
             raise MachineryError(f"could not configure the per-member limit {s['lim']} (effective {r.get('eff')})")
+        # (unconfigured scenarios run with whatever default the code has; the trace decides)
         traces.append({"id": f"a:{r['id']}", "hdr": _hdr(s, valid=w.get("valid", False)), "ev": evs})
         meta.append({"part": "a", "key": skey, "gov": ref_final[skey]["gov"], "w": w, "raw": r})
     if consts_seen:
@@ -360,18 +361,26 @@ def run(ctx):
     if os.environ.get("C12_DEBUG"):
         Path(os.environ["C12_DEBUG"]).write_text(json.dumps({"traces": traces, "meta": meta}, default=repr))
     tr_cfg = "SPECIFICATION TraceSpec\nCONSTRAINT TraceAccept\nCONSTANTS Deviations = {}\n"
-    br = validate("LimitsTrace", tr_cfg, traces, scratch=ctx.scratch, parallel=8, min_chunk=40)
+    br = validate("LimitsTrace", tr_cfg, traces, scratch=ctx.scratch, parallel=8, min_chunk=40, diagnose=0)
     ev.tlc_counts("LimitsTrace: recorded traces vs reference design (invariants conjoined)", br.distinct, br.states, br.wall_s)
     rejected = [i for i, tv in enumerate(br.verdicts) if not tv.accepted]
     ctx.log(f"t={time.time()-T0:.0f}s reference validation done, {len(rejected)} rejected")
     ab_ok = {}
     if rejected and open_devs:
         ab_cfg = f"SPECIFICATION TraceSpec\nCONSTRAINT TraceAccept\nCONSTANTS Deviations = {to_tla(set(open_devs))}\n"
-        br2 = validate("LimitsTrace", ab_cfg, [traces[i] for i in rejected], scratch=ctx.scratch, parallel=8, min_chunk=40)
+        br2 = validate("LimitsTrace", ab_cfg, [traces[i] for i in rejected], scratch=ctx.scratch, parallel=8, min_chunk=40,
+                       diagnose=0)
         ev.tlc_counts("LimitsTrace: rejected traces vs as-built model", br2.distinct, br2.states, br2.wall_s)
         ab_ok = {i: tv.accepted for i, tv in zip(rejected, br2.verdicts)}
 
     ctx.log(f"t={time.time()-T0:.0f}s as-built validation done")
+    # only what is neither conforming nor explained is diagnosed (longest prefix the reference design allows)
+    bad = [i for i in rejected if not (meta[i]["gov"] in open_devs and ab_ok.get(i))]
+    reached = {}
+    if bad:
+        br3 = validate("LimitsTrace", tr_cfg, [traces[i] for i in bad[:40]], scratch=ctx.scratch, parallel=8, min_chunk=5,
+                       diagnose=40)
+        reached = {i: tv.reached for i, tv in zip(bad[:40], br3.verdicts)}
     # ---- 4. verdicts
     for i, (t, m, tv) in enumerate(zip(traces, meta, br.verdicts)):
         s = ref_final[m["key"]]["scn"]
@@ -390,7 +399,8 @@ def run(ctx):
         where = {"read_file": "sharepoint2text/__init__.py:read_file",
                  "sevenz_size": "archive_extractor.py:_extract_from_7z_optimized",
                  "members": "archive_extractor.py member loops / sevenzip.py:extractall"}.get(s["k"], "extractor of ." + str(m["w"].get("ext")))
-        first_bad = t["ev"][tv.reached] if 0 <= tv.reached < len(t["ev"]) else None
+        at = reached.get(i, -1)
+        first_bad = t["ev"][at] if 0 <= at < len(t["ev"]) else None
         v.violation(what=desc, case={"scenario": json.loads(m["key"]), "events": t["ev"][:12], "hdr_skib": t["hdr"]["skib"]},
                     expected="a behaviour of Limits.tla with Deviations = {} (guard before load, exact limits, "
                              "skipped members never decompressed, cost within 32 MiB + 64 * size, entities not expanded)",
